@@ -9,6 +9,8 @@ fn occurs(a: &Tag, b: &Tag) -> bool {
         true
     } else if let Tag::Func(FuncTag { bindings, range }) = b {
         occurs(a, range) || bindings.iter().any(|binding| occurs(a, binding))
+    } else if let Tag::Property(prop) = b {
+        occurs(a, prop)
     } else {
         false
     }
